@@ -325,6 +325,8 @@ def run(ctx, n_files=None):
                 if order_dep and {a.split(" ")[0], b.split(" ")[0]} <= {
                         "ok", "err:deser"}:
                     return True
+                if ms.is_rejection(a) and ms.is_rejection(b):
+                    return True     # rejected by both; see ms.is_rejection
                 return a == "exc:AttributeError" or masked(a) == masked(b)
             if out == "exc:AttributeError":
                 obs_x = "err:attribute"
@@ -337,8 +339,9 @@ def run(ctx, n_files=None):
                 if order_dep and {a.split(" ")[0], b.split(" ")[0]} <= {
                         "ok", "err:deser"}:
                     return True
-                return {a, b} == {"err:attribute", "err:deser"} or \
-                    masked(a) == masked(b)
+                if ms.is_rejection(a) and ms.is_rejection(b):
+                    return True     # rejected by both; see ms.is_rejection
+                return masked(a) == masked(b)
             tie_x.add_checked("file %d %s" % (fno, what),
                               ["loadx " + " ".join(
                                   skeleton(m2, per_interval=True)[0])],
